@@ -11,6 +11,7 @@ import (
 	"errors"
 	"fmt"
 	"net/http"
+	"os"
 	"sort"
 	"strconv"
 	"strings"
@@ -36,12 +37,25 @@ var ctx = context.Background()
 // the copier (no lower-layer call at all) while work is pending, measured by a
 // poller that itself verifies it was scheduled on time.
 const (
-	queueSyncInterval = 5 * time.Second       // pkg/server/sync.go
-	idleProof         = 3 * queueSyncInterval // silence that proves a parked copier
-	hardCap           = 75 * time.Second      // give up (inconclusive) after this long
+	queueSyncInterval = 5 * time.Second // pkg/server/sync.go
 	starvedStep       = 1500 * time.Millisecond
 	drainCap          = 20 * time.Second
 )
+
+var (
+	idleProof = 3 * queueSyncInterval // silence that proves a parked copier
+	hardCap   = 75 * time.Second      // give up (inconclusive) after this long
+)
+
+func init() {
+	// development aid only (exercising the inconclusive path): C19_IDLEPROOF / C19_HARDCAP as Go durations
+	if d, err := time.ParseDuration(os.Getenv("C19_IDLEPROOF")); err == nil && d > 0 {
+		idleProof = d
+	}
+	if d, err := time.ParseDuration(os.Getenv("C19_HARDCAP")); err == nil && d > 0 {
+		hardCap = d
+	}
+}
 
 // sites at which the harness can inject faults / hold calls.
 const (
@@ -235,10 +249,10 @@ func (ld *loader) FindHandlerByType(string) (string, any, error) {
 	return "", nil, blobserver.ErrHandlerTypeNotFound
 }
 func (ld *loader) AllHandlers() (map[string]string, map[string]any) { return nil, nil }
-func (ld *loader) MyPrefix() string                                   { return "/sync/" }
-func (ld *loader) BaseURL() string                                    { return "" }
-func (ld *loader) GetHandlerType(string) string                       { return "" }
-func (ld *loader) GetHandler(p string) (any, error)                   { return ld.GetStorage(p) }
+func (ld *loader) MyPrefix() string                                 { return "/sync/" }
+func (ld *loader) BaseURL() string                                  { return "" }
+func (ld *loader) GetHandlerType(string) string                     { return "" }
+func (ld *loader) GetHandler(p string) (any, error)                 { return ld.GetStorage(p) }
 func (ld *loader) GetStorage(p string) (blobserver.Storage, error) {
 	if s, ok := ld.m[p]; ok {
 		return s, nil
